@@ -627,8 +627,9 @@ def kernLine (k : KernPair) : Bytes := sp kKPX (sp k.left (sp k.right (decInt k.
 
 def intOr0 (x : UInt64) : Int := (toInt64 x).getD 0
 
-/-- the lines `Write` prints, without their `\n`; `ia`: the text for `ItalicAngle` -/
-def writeLinesWith (m : Metrics) (ia : Bytes) : List Bytes :=
+/-- the lines `Write` prints before the glyph lines, without their `\n`; `ia`: the text for
+`ItalicAngle` -/
+def headLines (m : Metrics) (ia : Bytes) : List Bytes :=
   let names := splitOn 32 m.fullName
   let bb := fontBBox m
   [kStartFontMetrics41, sp kFontName m.fontName, sp kFullName m.fullName] ++
@@ -645,13 +646,20 @@ def writeLinesWith (m : Metrics) (ia : Bytes) : List Bytes :=
    sp kXHeight (fmt0 m.xHeight),
    sp kAscender (fmt0 m.ascent),
    sp kDescender (fmt0 m.descent),
-   sp kStartCharMetrics (decNat m.glyphs.length)] ++
-  glyphLines m ++ [kEndCharMetrics] ++
+   sp kStartCharMetrics (decNat m.glyphs.length)]
+
+/-- the lines after the glyph lines -/
+def tailLines (m : Metrics) : List Bytes :=
+  [kEndCharMetrics] ++
   (if m.kern ≠ [] then
     [kStartKernData, sp kStartKernPairs (decNat m.kern.length)] ++ m.kern.map kernLine ++
     [kEndKernPairs, kEndKernData]
    else []) ++
   [kEndFontMetrics]
+
+/-- all lines `Write` prints -/
+def writeLinesWith (m : Metrics) (ia : Bytes) : List Bytes :=
+  headLines m ia ++ glyphLines m ++ tailLines m
 
 def unlines : List Bytes → Bytes
   | [] => []
